@@ -267,7 +267,8 @@ func (d *DataRow) GetFloat(col *Column) float64 {
 		case Int64Col:
 			return float64(d.dataInt64[col.Index])
 		default:
-			log.Panicf("unsupported type: %s", col.DataType)
+			// not a number (ex.: Stats: sum name), convert like the values of virtual columns
+			return interface2float64(d.GetValueByColumn(col))
 		}
 	case RefStore:
 		ref := d.refs[col.RefColTableName]
